@@ -27,6 +27,6 @@ s6="".join(outb)
 s4=sec[4].replace('Shrinking: delta-debugging on the op list, re-running both sides.','Shrinking (as built): C13 and C14 minimise the failing history (C14 drops reads while the history stays unexplainable), C03/C04 report the crash point; the other harnesses report the generated case as it is.')
 s2=sec[2]
 new=rd('s0.md')+"\n---------------------------------------------------------------------------\n\n"+rd('s1.md')+"\n"+s2+rd('s3.md')+"\n"+s4+rd('s5.md')+"\n---------------------------------------------------------------------------\n\n"+s6
-new=new.rstrip('\n')+"\n\n---------------------------------------------------------------------------\n\n"+rd('s7a.md')+rd('defects.md')+rd('s7b.md')+rd('seeded.md')+rd('s8.md')
+new=new.rstrip('\n')+"\n\n---------------------------------------------------------------------------\n\n"+rd('s7a.md')+rd('defects.md')+rd('s7b.md')+rd('seeded.md')+rd('s7c.md')+open(V+'/benign/RESULTS.md').read()+'\n'+rd('s8.md')
 open(V+'/DESIGN.md','w').write(new)
 print(len(new.split('\n')),'lines')
